@@ -251,7 +251,7 @@ Section RowSplitProofs.
   Qed.
 
   (* a continued cell that places nothing on a page: conserved when it resumes where it
-     was, its first s units twice when it restarts (tables.go:225) *)
+     was, its first s units twice when it restarts (tables.go before /repo 7408964) *)
   Theorem cell_nothing_fits_resume_ok (c : list U) s :
     cell_three_pages U false c s = c.
   Proof. unfold cell_three_pages. cbn. apply firstn_skipn. Qed.
